@@ -7,7 +7,10 @@
      ReadMismatch     a Read failed, or did not return exactly the message at the head of the model channel (one per call, in order,
                       byte for byte - the harness reports the id of the written message that equals the result)
      CounterMismatch  at the end the bytes counted as read differ from the bytes counted as written
-     Crash                                                                                                                     *)
+     Crash
+   Kind "quicmix" (one event MixOp): reliable writers concurrent with datagram writers on one real quic.Transport (StreamFramingCore with
+   DWriters > 0): WriteFailed / Crash (a Write, WriteUnreliable or datagram Write failed / panicked), ReadMismatch (a reliable message
+   missing, altered or out of its writer's order, or the peer's Read failed), DatagramCorrupt (a datagram message arrived that nobody wrote) *)
 EXTENDS WsWindowCore
 
 MonInit == [st |-> Init0("off", 1), bad |-> {}, writes |-> 0, reads |-> 0, finals |-> 0, ct |-> 0, frag |-> 0, dictreads |-> 0]
@@ -16,8 +19,13 @@ MonReset(e) == [MonInit EXCEPT !.st = Init0(EffMode(e.p.mode, e.p.level), WinSiz
                                !.frag = IF e.p.server = "frag" THEN 1 ELSE 0]
 
 First(m, b) == IF m.bad # {} THEN m.bad ELSE b
+MixBad(e) == (IF e.npanic > 0 THEN {"Crash"} ELSE {})
+             \cup (IF e.nfail > 0 \/ e.dfail > 0 THEN {"WriteFailed"} ELSE {})
+             \cup (IF e.readErr # "" \/ e.mismatch > 0 \/ e.nread # e.total THEN {"ReadMismatch"} ELSE {})
+             \cup (IF e.dbad > 0 THEN {"DatagramCorrupt"} ELSE {})
 MonStep(m, e) ==
-    IF e.ev # "RealOp" THEN m
+    IF e.ev = "MixOp" THEN [m EXCEPT !.bad = First(m, MixBad(e)), !.finals = @ + 1, !.writes = @ + e.total + e.dsent, !.reads = @ + e.nread + e.drecv]
+    ELSE IF e.ev # "RealOp" THEN m
     ELSE IF e.a = "write"
     THEN [m EXCEPT !.st = Apply(m.st, [a |-> "write", tag |-> 1, n |-> e.n]),
                    !.bad = First(m, IF e.ret = "panic" THEN {"Crash"} ELSE IF e.ret # "ok" THEN {"WriteFailed"} ELSE {}),
